@@ -58,6 +58,42 @@ var classifierOracles = []classifierOracle{
 	}, "CommonMark 0.30 §6.6 unquoted attribute value: no spaces, tabs, line endings, \", ', =, <, >, `"},
 }
 
+// checkClassifierOracle compares the exact accept set of one classifier with its oracle (shared by C15 and C11).
+func checkClassifierOracle(c *Ctx, e *bsetEngine, o classifierOracle, rule string) {
+	fn := c.P.Func(o.fn)
+	if !c.NeedFunc(rule, fn, o.fn) {
+		return
+	}
+	t := e.Table(fn)
+	c.Analysed["domain_elements"] += len(t.domain)
+	if t.why != "" {
+		c.Undecided(rule, o.fn, fn.Pos(), "predicate not analysable: "+t.why)
+		return
+	}
+	var extra, missing []int64
+	panics := 0
+	for i, d := range t.domain {
+		r := t.res[i]
+		if r.kind == oPanic {
+			panics++
+			continue
+		}
+		got := r.val != 0
+		want := o.accept(d)
+		if got && !want {
+			extra = append(extra, d)
+		}
+		if !got && want {
+			missing = append(missing, d)
+		}
+	}
+	if len(extra) == 0 && len(missing) == 0 && panics == 0 {
+		c.OK(rule, o.fn, fn.Pos(), fmt.Sprintf("accept set over %d %ss equals: %s", len(t.domain), o.domain, o.src))
+	} else {
+		c.Viol(rule, o.fn, fn.Pos(), fmt.Sprintf("accept set differs from spec (%s): wrongly accepted %s, wrongly rejected %s, panics on %d values", o.src, describeSet(extra, true), describeSet(missing, true), panics))
+	}
+}
+
 func checkC15(c *Ctx) {
 	c.Rule("BSET", "For each byte/rune classifier the exact accept set, obtained by propagating every element of the parameter's domain through the function's loop-free SSA control-flow graph, equals the set transcribed from CommonMark 0.30 / RFC 3986. A predicate that is no longer analysable (loop, memory access, unmodelled callee) is undecided.")
 	c.Rule("BSET-MAP", "toLowerASCII maps A–Z to a–z and is the identity elsewhere; urlHexDigit maps 0..15 to 0-9A-F.")
@@ -65,38 +101,7 @@ func checkC15(c *Ctx) {
 	c.Assume("go/ssa faithfully represents the classifiers; Unicode tables are those of the Go standard library used to build the checker")
 	e := newBSET(c.P)
 	for _, o := range classifierOracles {
-		fn := c.P.Func(o.fn)
-		if !c.NeedFunc("BSET", fn, o.fn) {
-			continue
-		}
-		t := e.Table(fn)
-		c.Analysed["domain_elements"] += len(t.domain)
-		if t.why != "" {
-			c.Undecided("BSET", o.fn, fn.Pos(), "predicate not analysable: "+t.why)
-			continue
-		}
-		var extra, missing []int64
-		panics := 0
-		for i, d := range t.domain {
-			r := t.res[i]
-			if r.kind == oPanic {
-				panics++
-				continue
-			}
-			got := r.val != 0
-			want := o.accept(d)
-			if got && !want {
-				extra = append(extra, d)
-			}
-			if !got && want {
-				missing = append(missing, d)
-			}
-		}
-		if len(extra) == 0 && len(missing) == 0 && panics == 0 {
-			c.OK("BSET", o.fn, fn.Pos(), fmt.Sprintf("accept set over %d %ss equals: %s", len(t.domain), o.domain, o.src))
-		} else {
-			c.Viol("BSET", o.fn, fn.Pos(), fmt.Sprintf("accept set differs from spec (%s): wrongly accepted %s, wrongly rejected %s, panics on %d values", o.src, describeSet(extra, true), describeSet(missing, true), panics))
-		}
+		checkClassifierOracle(c, e, o, "BSET")
 	}
 	// byte -> byte maps
 	if fn := c.P.Func("toLowerASCII"); c.NeedFunc("BSET-MAP", fn, "toLowerASCII") {
@@ -136,6 +141,7 @@ func checkC15(c *Ctx) {
 	checkURISafeSet(c, e)
 	ruleSpecBounds(c)
 	ruleSpanScan(c)
+	ruleWSSpecRecognisers(c)
 	c.MinCount("BSET", len(classifierOracles))
 }
 
